@@ -607,5 +607,139 @@ pub proof fn lemma_part2_acc_step<C: Ciphersuite>(r2: Map<Identifier<C>, crate::
             signing_share: crate::keys::SigningShare(crate::serialization::SerializableScalar(poly::<AL<C>>(coeffs, keys[k].0.0))) }) by { if k < j { assert(keys[k] != keys[j]); } }
 }
 
+
+// ---- part3 / public key package from commitments ----
+// column sums of the participants' commitments: sum_j cs[j][i], accumulated from the identity in list order
+pub open spec fn spec_col_sum<C: Ciphersuite>(cs: Seq<Seq<crate::keys::CoefficientCommitment<C>>>, i: int, upto: int) -> Element<C> decreases upto
+{ if upto <= 0 { e0::<C>() } else { eadd::<C>(spec_col_sum::<C>(cs, i, upto - 1), cs[upto - 1][i].0.0) } }
+
+// sum_commitments: length of the first commitment decides; a shorter later commitment is an error, a longer one is truncated
+pub open spec fn spec_sum_commitments<C: Ciphersuite>(cs: Seq<Seq<crate::keys::CoefficientCommitment<C>>>) -> Result<Seq<crate::keys::CoefficientCommitment<C>>, Error<C>> {
+    if cs.len() == 0 { Err(Error::IncorrectNumberOfCommitments) }
+    else if exists|j: int| 0 <= j < cs.len() && (#[trigger] cs[j]).len() < cs[0].len() { Err(Error::IncorrectNumberOfCommitments) }
+    else { Ok(Seq::new(cs[0].len(), |i: int| crate::keys::CoefficientCommitment::<C>(crate::serialization::SerializableElement(spec_col_sum::<C>(cs, i, cs.len() as int))))) }
+}
+
+// PublicKeyPackage::from_commitment (FROST KeyGen round 2 step 4: Y_i = prod_k phi_k^(i^k) over the summed commitment)
+pub open spec fn spec_is_pk_from_commitment<C: Ciphersuite>(pk: crate::keys::PublicKeyPackage<C>, ids: Set<Identifier<C>>, c: Seq<crate::keys::CoefficientCommitment<C>>) -> bool {
+    pk.header == default_header::<C>()
+    && pk.verifying_shares@.dom() == ids
+    && (forall|id: Identifier<C>| ids.contains(id) ==> #[trigger] pk.verifying_shares@[id] == crate::keys::VerifyingShare::<C>(crate::serialization::SerializableElement(spec_vss::<C>(comm_vals::<C>(c), id.0.0, s1::<C>()))))
+    && pk.verifying_key == (VerifyingKey::<C> { element: crate::serialization::SerializableElement(c[0].0.0) })
+    && pk.min_signers == Some(c.len() as u16)
+}
+
+pub proof fn lemma_collected_map<C: Ciphersuite>(m: Map<Identifier<C>, crate::keys::VerifyingShare<C>>, ids: Seq<Identifier<C>>,
+        vals: Seq<(Identifier<C>, crate::keys::VerifyingShare<C>)>, c: Seq<crate::keys::CoefficientCommitment<C>>)
+    requires ids.no_duplicates(), vals.len() == ids.len(),
+        forall|k: int| 0 <= k < vals.len() ==> #[trigger] vals[k] == (ids[k], crate::keys::VerifyingShare::<C>(crate::serialization::SerializableElement(spec_vss::<C>(comm_vals::<C>(c), ids[k].0.0, s1::<C>())))),
+        m.dom() == vals.map_values(|p: (Identifier<C>, crate::keys::VerifyingShare<C>)| p.0).to_set(),
+        forall|k: int| 0 <= k < vals.len() && (forall|j: int| k < j < vals.len() ==> vals[j].0 != vals[k].0) ==> m[#[trigger] vals[k].0] == vals[k].1,
+    ensures m.dom() == ids.to_set(),
+        forall|id: Identifier<C>| ids.to_set().contains(id) ==> #[trigger] m[id] == crate::keys::VerifyingShare::<C>(crate::serialization::SerializableElement(spec_vss::<C>(comm_vals::<C>(c), id.0.0, s1::<C>()))),
+{
+    let ks = vals.map_values(|p: (Identifier<C>, crate::keys::VerifyingShare<C>)| p.0);
+    assert(ks =~= ids) by { assert forall|k: int| 0 <= k < ks.len() implies ks[k] == ids[k] by { assert(vals[k].0 == ids[k]); } }
+    assert forall|id: Identifier<C>| ids.to_set().contains(id) implies #[trigger] m[id] == crate::keys::VerifyingShare::<C>(crate::serialization::SerializableElement(spec_vss::<C>(comm_vals::<C>(c), id.0.0, s1::<C>()))) by {
+        let k = choose|k: int| 0 <= k < ids.len() && ids[k] == id;
+        assert(vals[k].0 == id);
+        assert forall|j: int| k < j < vals.len() implies vals[j].0 != vals[k].0 by { assert(vals[j].0 == ids[j]); }
+        assert(m[vals[k].0] == vals[k].1);
+    }
+}
+
+
+// the participants' commitments in ascending identifier order, and their sum (the group commitment)
+pub open spec fn spec_dkg_commitment_list<C: Ciphersuite>(m: Map<Identifier<C>, Seq<crate::keys::CoefficientCommitment<C>>>) -> Seq<Seq<crate::keys::CoefficientCommitment<C>>>
+{ sorted_seq(m.dom()).map_values(|id: Identifier<C>| m[id]) }
+pub open spec fn cmap_view<C: Ciphersuite>(m: Map<Identifier<C>, &crate::keys::VerifiableSecretSharingCommitment<C>>) -> Map<Identifier<C>, Seq<crate::keys::CoefficientCommitment<C>>>
+{ Map::new(m.dom(), |id: Identifier<C>| m[id].0@) }
+pub open spec fn spec_dkg_group_commitment<C: Ciphersuite>(m: Map<Identifier<C>, Seq<crate::keys::CoefficientCommitment<C>>>) -> Result<Seq<crate::keys::CoefficientCommitment<C>>, Error<C>> {
+    match spec_sum_commitments::<C>(spec_dkg_commitment_list::<C>(m)) {
+        Err(e) => Err(e),
+        Ok(v) => if v.len() == 0 { Err(Error::IncorrectCommitment) } else { Ok(v) },
+    }
+}
+
+
+// ---- part3 (FROST KeyGen round 2 steps 2-4) ----
+pub open spec fn spec_part3_guard_err<C: Ciphersuite>(s2: crate::keys::dkg::round2::SecretPackage<C>, r1: Map<Identifier<C>, crate::keys::dkg::round1::Package<C>>,
+        r2: Map<Identifier<C>, crate::keys::dkg::round2::Package<C>>) -> Option<Error<C>> {
+    if r1.dom().len() != s2.max_signers - 1 { Some(Error::IncorrectNumberOfPackages) }
+    else if r1.contains_key(s2.identifier) { Some(Error::UnknownIdentifier) }
+    else if r2.contains_key(s2.identifier) { Some(Error::UnknownIdentifier) }
+    else if r1.dom().len() != r2.dom().len() { Some(Error::IncorrectNumberOfPackages) }
+    else if exists|id: Identifier<C>| #[trigger] r1.contains_key(id) && !r2.contains_key(id) { Some(Error::IncorrectPackage) }
+    else { None }
+}
+
+// verification of the share f received from `sender` against the commitment filed for that sender (culprit attributed)
+pub open spec fn spec_share_err<C: Ciphersuite>(own: Identifier<C>, f: Scalar<C>, c: Seq<crate::keys::CoefficientCommitment<C>>, sender: Identifier<C>) -> Option<Error<C>> {
+    match spec_share_ok_c::<C>(f, own, c) {
+        Ok(_) => None,
+        Err(e) => if e is InvalidSecretShare { Some(Error::InvalidSecretShare { culprit: Some(sender) }) } else { Some(e) },
+    }
+}
+
+pub open spec fn spec_first_share_err<C: Ciphersuite>(keys: Seq<Identifier<C>>, r1: Map<Identifier<C>, crate::keys::dkg::round1::Package<C>>,
+        r2: Map<Identifier<C>, crate::keys::dkg::round2::Package<C>>, own: Identifier<C>, from: int) -> Option<Error<C>>
+    decreases keys.len() - from
+{
+    if from < 0 || from >= keys.len() { None } else {
+        match spec_share_err::<C>(own, r2[keys[from]].signing_share.0.0, r1[keys[from]].commitment.0@, keys[from]) {
+            Some(e) => Some(e),
+            None => spec_first_share_err::<C>(keys, r1, r2, own, from + 1),
+        }
+    }
+}
+
+pub open spec fn spec_r2_sum<C: Ciphersuite>(keys: Seq<Identifier<C>>, r2: Map<Identifier<C>, crate::keys::dkg::round2::Package<C>>, n: int) -> Scalar<C> decreases n
+{ if n <= 0 { s0::<C>() } else { sadd::<C>(spec_r2_sum::<C>(keys, r2, n - 1), r2[keys[n - 1]].signing_share.0.0) } }
+
+pub open spec fn spec_part3_commitments<C: Ciphersuite>(s2: crate::keys::dkg::round2::SecretPackage<C>, r1: Map<Identifier<C>, crate::keys::dkg::round1::Package<C>>)
+        -> Map<Identifier<C>, Seq<crate::keys::CoefficientCommitment<C>>>
+{ Map::new(r1.dom().insert(s2.identifier), |id: Identifier<C>| if id == s2.identifier { s2.commitment.0@ } else { r1[id].commitment.0@ }) }
+
+// what part3 hands to the post_dkg hook
+pub open spec fn spec_part3_pre<C: Ciphersuite>(kp: crate::keys::KeyPackage<C>, pk: crate::keys::PublicKeyPackage<C>, s2: crate::keys::dkg::round2::SecretPackage<C>,
+        r1: Map<Identifier<C>, crate::keys::dkg::round1::Package<C>>, r2: Map<Identifier<C>, crate::keys::dkg::round2::Package<C>>) -> bool {
+    let keys = sorted_seq(r2.dom());
+    let s = sadd::<C>(spec_r2_sum::<C>(keys, r2, keys.len() as int), s2.secret_share.0);
+    let m = spec_part3_commitments::<C>(s2, r1);
+    spec_dkg_group_commitment::<C>(m) is Ok
+    && spec_is_pk_from_commitment::<C>(pk, m.dom(), spec_dkg_group_commitment::<C>(m)->Ok_0)
+    && kp == (crate::keys::KeyPackage::<C> { header: default_header::<C>(), identifier: s2.identifier,
+            signing_share: crate::keys::SigningShare(crate::serialization::SerializableScalar(s)),
+            verifying_share: crate::keys::VerifyingShare(crate::serialization::SerializableElement(gmul::<C>(s))),
+            verifying_key: pk.verifying_key, min_signers: s2.min_signers })
+}
+
+pub proof fn lemma_part3_same_keys<C: Ciphersuite>(r1: Map<Identifier<C>, crate::keys::dkg::round1::Package<C>>, r2: Map<Identifier<C>, crate::keys::dkg::round2::Package<C>>)
+    requires r1.dom().finite(), r2.dom().finite(), r1.dom().len() == r2.dom().len(), forall|id: Identifier<C>| #[trigger] r1.contains_key(id) ==> r2.contains_key(id)
+    ensures r1.dom() == r2.dom()
+{
+    assert(r1.dom().subset_of(r2.dom()));
+    vstd::set_lib::lemma_subset_equality(r1.dom(), r2.dom());
+}
+
+pub proof fn lemma_first_share_err_step<C: Ciphersuite>(keys: Seq<Identifier<C>>, r1: Map<Identifier<C>, crate::keys::dkg::round1::Package<C>>,
+        r2: Map<Identifier<C>, crate::keys::dkg::round2::Package<C>>, own: Identifier<C>, j: int)
+    requires 0 <= j < keys.len(), forall|k: int| 0 <= k < j ==> spec_share_err::<C>(own, r2[#[trigger] keys[k]].signing_share.0.0, r1[keys[k]].commitment.0@, keys[k]) is None
+    ensures spec_first_share_err::<C>(keys, r1, r2, own, 0) == spec_first_share_err::<C>(keys, r1, r2, own, j)
+    decreases j
+{ if j > 0 { lemma_first_share_err_step::<C>(keys, r1, r2, own, j - 1); } }
+
+pub proof fn lemma_first_share_err_none<C: Ciphersuite>(keys: Seq<Identifier<C>>, r1: Map<Identifier<C>, crate::keys::dkg::round1::Package<C>>,
+        r2: Map<Identifier<C>, crate::keys::dkg::round2::Package<C>>, own: Identifier<C>, j: int)
+    requires j == keys.len(), forall|k: int| 0 <= k < j ==> spec_share_err::<C>(own, r2[#[trigger] keys[k]].signing_share.0.0, r1[keys[k]].commitment.0@, keys[k]) is None
+    ensures spec_first_share_err::<C>(keys, r1, r2, own, 0) is None
+{
+    assert(spec_first_share_err::<C>(keys, r1, r2, own, j) is None);
+    if j > 0 {
+        lemma_first_share_err_step::<C>(keys, r1, r2, own, j - 1);
+        assert(spec_first_share_err::<C>(keys, r1, r2, own, j - 1) == spec_first_share_err::<C>(keys, r1, r2, own, j));
+    }
+}
+
 } // verus!
 }
